@@ -242,6 +242,27 @@ def exec_semantics(ck, tier, rng):
         if tuple(r) != ("close-refused", "OSError"):
             ck.fail("explicit-close-inside-not-refused:" + repr(r)[:40], {})
         ch.waitclose(X.T)
+        # ... also when the initiating side has closed its end meanwhile
+        ch = gw.remote_exec("""
+import time
+side = channel.receive()
+for _ in range(1000):
+    if channel.isclosed():
+        break
+    time.sleep(0.01)
+try:
+    channel.close()
+    side.send(('close-accepted', channel.isclosed()))
+except OSError:
+    side.send(('close-refused', channel.isclosed()))
+""")
+        side = gw.newchannel()
+        ch.send(side)
+        ch.close()
+        r = side.receive(X.T)
+        ck.case(("close-inside-after-peer-close",), nontrivial=True)
+        if tuple(r)[0] != "close-refused":
+            ck.fail("explicit-close-inside-not-refused-after-peer-close:" + repr(r)[:40], {})
         ch = gw.remote_exec("channel.send(1)\nchannel.receive()\nchannel.send(2)\n")
         ck.case(("autoclose",), nontrivial=True)
         assert ch.receive(X.T) == 1
